@@ -32,6 +32,25 @@ equal / different), lsa / lsd of every leaf, rdd, and additionally
                        equal-valued at the moment the dependencies are re-bound.  (In the initial state
                        all leaves are 0: siblings are equal-valued when the dependencies are first bound.)
 
+Raising methods (C07; configurations with SEVERAL methods): histories  arm[mj]:a ; c1  (thorough also  p ; arm[mj]:a ;
+c1): a = an operation that must call method j (rdk of a slot above one of its leaves, at every level; lsa of one of
+its leaves) performed while method j RAISES after logging the call -- for EVERY j, i.e. the first-defined, a middle
+and the last-defined method -- the exception leaves the assignment and is caught.  Oracle: in the raising step
+method j as usual, every other method "not more often than normally" (its call may be lost with the exception);
+EVERY LATER step exactly as usual for EVERY method (the methods follow the object now attached, never a detached
+one), and the watcher tables of detached objects are inspected after the raising step and after every later one.
+Clauses 'C07/several methods, one of them raises: ...'.
+
+Class hierarchies (C07; family "mro", eq field 'mro|<shape>|<PB>|<PM>'): class Base(param.Parameterized) carries the
+parameters and declares m0 and m1, both depending on the path PB; a plain NON-Parameterized class Mix re-declares m0
+depending on ANOTHER path PM (another root, another sub-object below the same root, another depth, another leaf);
+the instantiated class T combines them in every MRO position (MRO_SHAPES: mixin before / after the Parameterized
+class, behind a further plain class, inherited through an intermediate Parameterized class, in front of an
+intermediate Parameterized class, through a plain subclass of the mixin).  The dependencies of T.m0 are those of the
+definition attribute lookup finds on T -- computed on a MIRROR hierarchy of plain Python classes (the language's
+MRO, nothing of param); m1 keeps PB.  Operations over the slots and leaves of BOTH paths; per-method oracle as
+above.  Clauses 'C07/class hierarchy with plain mixins re-declaring the method: ...'.
+
 C06 additionally performs every single operation in the forms of the statement ("assignment, update or
 batch"): plain assignment, H.param.update(...), `with batch_call_watchers(H)` on the object H that owns the
 assigned parameter, and `with batch_call_watchers(top)` around an assignment on a lower object.
@@ -63,6 +82,12 @@ CLAUSES = {
             'detached': 'C06/dispatch/deep sub-object paths, several methods: invocations==deps',
             'leak': None},
 }
+MRO_CLAUSES = {'count': 'C07/class hierarchy with plain mixins re-declaring the method: the method fires exactly once iff its reached value changes',
+               'detached': 'C07/class hierarchy with plain mixins re-declaring the method: never because of a detached object',
+               'leak': 'C07/class hierarchy with plain mixins re-declaring the method: detached objects keep no watcher'}
+RAISE_CLAUSES = {'count': 'C07/several methods, one of them raises: afterwards each method fires exactly once iff its reached value changes',
+                 'detached': 'C07/several methods, one of them raises: afterwards never because of a detached object',
+                 'leak': 'C07/several methods, one of them raises: detached objects keep no watcher'}
 EVAL_CLAUSE = {'C07': CLAUSES['C07']['count'],
                'C06': 'C06/dispatch/deep sub-object paths, several methods: invocations == [changed & deps != {}]'}
 
@@ -71,6 +96,9 @@ import param
 warnings.simplefilter('ignore')
 param.parameterized.get_logger().setLevel(logging.CRITICAL)
 LOG = []
+ARM = [None]
+class Boom(Exception):
+    pass
 '''
 EQ_SRC = '''    def __eq__(self, other):
         return type(other) is type(self) and all(getattr(self, p) == getattr(other, p) for p in %r)
@@ -81,8 +109,63 @@ EQ_SRC = '''    def __eq__(self, other):
 '''
 
 
+MRO_POOL = ('a.x', 'c.x', 'a.b.x', 'a.c.x', 'c.b.x', 'a.b.y')
+# family "mro": class T is built from a Parameterized class Base carrying the parameters and declaring m0 (depends
+# on PB) and m1 (depends on PB), and plain NON-Parameterized mixins re-declaring m0 (depends on PM):
+MRO_SHAPES = {
+    # name: (source template of the classes below Base; {mix} = the mixin re-declaring m0), all named in MRO order
+    'T(Mix,Base)': "{mix}class T(Mix, Base):\n    pass\n",
+    'T(Base,Mix)': "{mix}class T(Base, Mix):\n    pass\n",
+    'T(Plain,Mix,Base)': "{mix}class Plain:\n    pass\nclass T(Plain, Mix, Base):\n    pass\n",
+    'T(Mid);Mid(Mix,Base)': "{mix}class Mid(Mix, Base):\n    pass\nclass T(Mid):\n    pass\n",
+    'T(Mix,Mid);Mid(Base)': "{mix}class Mid(Base):\n    pass\nclass T(Mix, Mid):\n    pass\n",
+    'T(Mix2,Base);Mix2(Mix)': "{mix}class Mix2(Mix):\n    pass\nclass T(Mix2, Base):\n    pass\n",
+    'T(Mid,Mix);Mid(Base)': "{mix}class Mid(Base):\n    pass\nclass T(Mid, Mix):\n    pass\n",
+}
+
+
+def is_mro(eq):
+    return eq.startswith('mro|')
+
+
+def mro_parts(eq):
+    _, shape, pb, pm = eq.split('|')
+    return shape, pb, pm
+
+
+def mro_effective(shape, pb, pm):
+    """dependencies of the m0 that attribute lookup finds on T: computed on a MIRROR of the hierarchy made of plain
+    Python classes (the language's own method resolution order, nothing of param)"""
+    ns = {}
+    src = "class Base:\n    m0 = %r\n" % (pb,) + MRO_SHAPES[shape].format(mix="class Mix:\n    m0 = %r\n" % (pm,))
+    exec(src, ns)
+    return ns['T'].m0
+
+
+def mro_methods(eq):
+    shape, pb, pm = mro_parts(eq)
+    return ((mro_effective(shape, pb, pm),), (pb,))
+
+
+def _method_src(j, deps, indent='    '):
+    return ("%s@param.depends(%s, watch=True)\n%sdef m%d(self):\n%s    LOG.append('m%d')\n%s    if ARM[0] == %d:\n"
+            "%s        raise Boom('m%d raises')\n" % (indent, ', '.join(repr(s) for s in deps), indent, j, indent, j,
+                                                      indent, j, indent, j))
+
+
 def classes_src(methods, eq):
     src = HEADER_SRC
+    if is_mro(eq):
+        shape, pb, pm = mro_parts(eq)
+        src += "class L(param.Parameterized):\n    x = param.Integer(0)\n    y = param.Integer(0)\n"
+        src += ("class M(param.Parameterized):\n    x = param.Integer(0)\n    y = param.Integer(0)\n"
+                "    b = param.Parameter(None)\n    c = param.Parameter(None)\n")
+        src += ("class N(param.Parameterized):\n    z = param.Integer(0)\n"
+                "class Base(param.Parameterized):\n    a = param.Parameter(None)\n    c = param.Parameter(None)\n"
+                "    z = param.Integer(0)\n")
+        src += _method_src(0, (pb,)) + _method_src(1, (pb,))
+        src += MRO_SHAPES[shape].format(mix="class Mix:\n" + _method_src(0, (pm,)))
+        return src
     src += "class L(param.Parameterized):\n    x = param.Integer(0)\n    y = param.Integer(0)\n"
     if eq == 'val':
         src += EQ_SRC % (('x', 'y'),)
@@ -94,8 +177,7 @@ def classes_src(methods, eq):
             "class T(param.Parameterized):\n    a = param.Parameter(None)\n    c = param.Parameter(None)\n"
             "    z = param.Integer(0)\n")
     for j, deps in enumerate(methods):
-        src += "    @param.depends(%s, watch=True)\n    def m%d(self):\n        LOG.append('m%d')\n" % (
-            ', '.join(repr(s) for s in deps), j, j)
+        src += _method_src(j, deps)
     return src
 
 
@@ -141,6 +223,14 @@ def union(methods):
 
 
 _CFG = {}
+
+
+def cfg_for(methods, eq):
+    """the configuration (slots, operations) of a history: family mro also carries the path of the SHADOWED declaration"""
+    if is_mro(eq):
+        shape, pb, pm = mro_parts(eq)
+        return cfg_of(methods + ((pb, pm),))
+    return cfg_of(methods)
 
 
 def cfg_of(methods):
@@ -260,12 +350,55 @@ def enumerate_histories(cfg, init, spec):
     return out
 
 
+def armed_histories(cfg, methods, init, spec):
+    """spec = ('arm', stride, offset, long): histories  arm[mj]:a ; c1  -- a = every operation that must call method
+    j (rdk of every slot above a leaf of j, lsa of every leaf of j), performed while method j RAISES (after logging the
+    call; the exception leaves the assignment and is caught), for EVERY method j; c1 = every applicable single
+    operation (every stride-th, at least one per armed operation: the watcher tables are inspected right after the
+    armed step in any case).  long: additionally  p ; arm[mj]:a ; c1  (every stride-th p and c1)."""
+    _, stride, offset, long_ = spec
+    cnt = [offset]
+
+    def take():
+        cnt[0] += 1
+        return stride <= 1 or cnt[0] % stride == 0
+
+    def armable(prefix):
+        m = model_after(cfg, init, prefix)
+        out = []
+        for op in cfg.alphabet:
+            if op[0] not in ('rdk', 'lsa') or not m.applicable(op):
+                continue
+            before = m.reached()
+            m2 = model_after(cfg, init, prefix)
+            on_det = m2.apply(op)
+            after = m2.reached()
+            for j, d in enumerate(methods):
+                idx = [cfg.specs.index(s) for s in d]
+                lo, _hi = base.expectation(d, op, [before[k] for k in idx], [after[k] for k in idx], on_det, False)
+                if lo == 1:
+                    out.append(('arm', op, j))
+        return out
+    out = []
+    for a in armable(()):
+        cs = [(a, c) for c in applicable_ops(cfg, model_after(cfg, init, (a,)), False)]
+        out += [h for h in cs if take()] or cs[:1] or [(a,)]
+    if long_:
+        for p in applicable_ops(cfg, model_after(cfg, init, ()), False):
+            if not take():
+                continue
+            for a in armable((p,)):
+                cs = [(p, a, c) for c in applicable_ops(cfg, model_after(cfg, init, (p, a)), False)]
+                out += [h for h in cs if take()] or cs[:1]
+    return out
+
+
 # ------------------------------------------------------------------------------------------
 # running one history
 # ------------------------------------------------------------------------------------------
 def run_history(prop, methods, eq, init, hist):
     """-> (steps, violations, raised)"""
-    cfg = cfg_of(methods)
+    cfg = cfg_for(methods, eq)
     specs = cfg.specs
     idxs = [[specs.index(s) for s in d] for d in methods]
     ns = namespace(methods, eq)
@@ -277,8 +410,10 @@ def run_history(prop, methods, eq, init, hist):
     done = len(m.instrs)
     viols, raised = [], []
     steps = 0
-    cl = CLAUSES[prop]
+    cl = MRO_CLAUSES if is_mro(eq) else CLAUSES[prop]
     for i, op in enumerate(hist):
+        if op[0] == 'arm':
+            cl = RAISE_CLAUSES      # from the raising step on
         before = m.reached()
         on_det = m.apply(op)
         after = m.reached()
@@ -287,10 +422,13 @@ def run_history(prop, methods, eq, init, hist):
         for ins in new[:-1]:
             base.execute(ins, env, ns)
         del LOG[:]
+        ns['ARM'][0] = op[2] if op[0] == 'arm' else None
         try:
             base.execute(new[-1], env, ns)
         except Exception as e:
             raised.append((i, type(e).__name__))
+        finally:
+            ns['ARM'][0] = None
         steps += 1
         for j, d in enumerate(methods):
             bj = [before[k] for k in idxs[j]]
@@ -300,7 +438,9 @@ def run_history(prop, methods, eq, init, hist):
                         for it, b, a, batched in m.last_batch]
                 lo, hi = base.batch_expectation(d, info, bj, aj)
             else:
-                lo, hi = base.expectation(d, op, bj, aj, on_det, False)
+                lo, hi = base.expectation(d, op[1] if op[0] == 'arm' else op, bj, aj, on_det, False)
+            if op[0] == 'arm' and j != op[2]:
+                lo = 0      # lenient: the exception of the raising method may keep the remaining methods from being called
             got = LOG.count('m%d' % j)
             if lo <= got <= hi:
                 continue
@@ -323,7 +463,7 @@ def run_history(prop, methods, eq, init, hist):
                                   clause=cl['leak'], method=-1, got=leaks[0][1], lo=0, hi=0,
                                   leak_role=m.objs[leaks[0][0]]['role'], leak_idx=leaks[0][0],
                                   before=before, after=after, raised=tuple(raised)))
-        if viols and viols[-1]['hist'] == tuple(hist[:i + 1]) and i < len(hist) - 1:
+        if viols and viols[-1]['hist'] == tuple(hist[:i + 1]) and i < len(hist) - 1 and op[0] != 'arm':
             break       # the first failing step of a history is the finding (later steps run on a damaged binding)
     return steps, viols, raised
 
@@ -334,14 +474,15 @@ def run_chunk(tasks):
     warnings.simplefilter('ignore')
     res = []
     for prop, methods, eq, init, spec in tasks:
-        cfg = cfg_of(methods)
-        hs = enumerate_histories(cfg, init, spec)
+        cfg = cfg_for(methods, eq)
+        hs = armed_histories(cfg, methods, init, spec) if spec[0] == 'arm' else enumerate_histories(cfg, init, spec)
         steps = ndet = 0
         viols, raisers = [], []
         for h in hs:
             s, v, r = run_history(prop, methods, eq, init, h)
             steps += s
             ndet += sum(1 for o in h[:s] if o[0] in ('lsd', 'rdd'))
+            r = [(i, exc) for i, exc in r if not (exc == 'Boom' and h[i][0] == 'arm')]      # raised as intended
             viols += v
             for i, exc in r:
                 raisers.append((base.op_str(h[i]), exc, h[:i + 1]))
@@ -412,6 +553,47 @@ def plan(prop, tier, seed, nchunks=64):
                            "(assignment / update / batch on the owner / batch on the top object); plain operation ; operation "
                            "in every form, and batched operation ; leaf assignment: all of them for one method (value equality: "
                            "every second), a seeded 1/10 (value equality: 1/20) for several")
+    if prop == 'C07':
+        # ---- one of several methods raises (checks AFTER the failure) / plain mixins re-declaring the method
+        multi = [(i, methods) for i, (depth, methods) in enumerate(cfgs) if len(methods) >= 2]
+        narm = 0
+        for i, methods in multi:
+            if tier == 'quick':
+                tasks.append((prop, methods, 'id', 'full', ('arm', 8, seed + i, False)))
+            else:
+                tasks.append((prop, methods, 'id', 'full', ('arm', 2, seed + i, False)))
+                tasks.append((prop, methods, 'val', 'full', ('arm', 4, seed + i, False)))
+                tasks.append((prop, methods, 'id', 'full', ('arm', 12, seed + i, True)))
+            narm += 1
+        nmro = 0
+        for shape in MRO_SHAPES:
+            for pb in MRO_POOL:
+                for pm in MRO_POOL:
+                    if pb == pm:
+                        continue
+                    eq = 'mro|%s|%s|%s' % (shape, pb, pm)
+                    nmro += 1
+                    if tier == 'quick':
+                        tasks.append((prop, mro_methods(eq), eq, 'full', (2, False, 8, seed + nmro)))
+                    else:
+                        tasks.append((prop, mro_methods(eq), eq, 'full', (2, False, 2, seed + nmro)))
+                        for init in cfg_for(mro_methods(eq), eq).inits[1:]:
+                            tasks.append((prop, mro_methods(eq), eq, init, (2, False, 12, seed + nmro)))
+        text += ("; raising methods: the %d configurations with several methods, from the full state: arm[mj]:a ; c1 for every "
+                 "method j and every operation a that must call it (replacement by a copy differing in a leaf of j, at every "
+                 "level; leaf assignment), method j raising during a, followed by %s single operation c1%s -- the raising step "
+                 "is compared from above for the other methods, every later step exactly, watcher tables after every step; "
+                 "class hierarchies (family mro): %d hierarchies = %d placements of a plain NON-Parameterized mixin that "
+                 "re-declares m0 relative to the Parameterized class declaring it (before / after it in the MRO, behind another "
+                 "plain class, through an intermediate Parameterized or plain subclass) x %d ordered pairs (path of the "
+                 "Parameterized declaration, path of the mixin's declaration) over %s, a second method m1 declared once; "
+                 "the dependencies of T.m0 are those of the definition that attribute lookup finds (computed on a mirror of "
+                 "plain classes); ALL single operations and %s histories of length 2%s"
+                 % (narm, 'a seeded 1/8 of the' if tier == 'quick' else 'every second',
+                    '' if tier == 'quick' else ' (value equality: 1/4), and a seeded 1/12 of p ; arm[mj]:a ; c1',
+                    nmro, len(MRO_SHAPES), len(MRO_POOL) * (len(MRO_POOL) - 1), '/'.join(MRO_POOL),
+                    'a seeded 1/8 of the' if tier == 'quick' else 'every second of the',
+                    ' from the full state' if tier == 'quick' else ' from the full state, 1/12 from every other initial state'))
     chunks = [tasks[i::nchunks] for i in range(nchunks)]
     return [c for c in chunks if c], text
 
@@ -421,10 +603,12 @@ def plan(prop, tier, seed, nchunks=64):
 # ------------------------------------------------------------------------------------------
 def last_form(v):
     op = v['hist'][-1]
+    if op[0] == 'arm':
+        return 'arm', op[1]
     if op[0] != 'bat':
         return 'set', op
     it = op[3][0]
-    cfg = cfg_of(v['methods'])
+    cfg = cfg_for(v['methods'], v['eq'])
     if op[1] == 'upd':
         return 'upd', it
     return ('ctx' if op[2] == holder_slot(cfg, it) else 'ctxtop'), it
@@ -434,7 +618,7 @@ def vclass(v):
     """witness class: (clause, kind, equality, one / several methods, form, kind of the failing operation, level of
     the assigned object / depth of the deepest path of the failing method, first step / later)"""
     form, it = last_form(v)
-    cfg = cfg_of(v['methods'])
+    cfg = cfg_for(v['methods'], v['eq'])
     if it[0] in ('lsa', 'lsd'):
         lvl = cfg.leaves[it[1]][0].count('.') + 2
     else:
@@ -443,8 +627,14 @@ def vclass(v):
         depth = max(s.count('.') for s in v['methods'][v['method']])
     else:
         depth = max(s.count('.') for s in cfg.specs)
-    return (v['clause'], v['kind'], v['eq'], 'one' if len(v['methods']) == 1 else 'several', form, it[0],
-            '%d/%d' % (lvl, depth), 'first' if len(v['hist']) == 1 else 'later')
+    armed = [o for o in v['hist'][:-1] if o[0] == 'arm']
+    when = 'first' if len(v['hist']) == 1 else ('after-raise[%s]' % armed[0][1][0] if armed else 'later')
+    eqk = v['eq']
+    if is_mro(eqk):
+        shape, pb, pm = mro_parts(eqk)
+        eqk = 'mro|%s|%s' % (shape, 'same-root' if pb.split('.')[0] == pm.split('.')[0] else 'other-root')
+    return (v['clause'], v['kind'], eqk, 'one' if len(v['methods']) == 1 else 'several', form, it[0],
+            '%d/%d' % (lvl, depth), when)
 
 
 def class_str(k):
@@ -461,7 +651,7 @@ def witness_of(v):
 
 
 def sortkey(v):
-    cfg = cfg_of(v['methods'])
+    cfg = cfg_for(v['methods'], v['eq'])
     return (bool(v['raised']), len(v['hist']), len(v['methods']), sum(len(d) for d in v['methods']),
             max(s.count('.') for s in cfg.specs), v['init'] != 'full', mkey(v['methods']),
             [base.op_order(cfg, o) if o[0] != 'eqs' and not (o[0] == 'bat' and o[3][0][0] == 'eqs') else (3, 0, base.op_str(o))
@@ -469,7 +659,7 @@ def sortkey(v):
 
 
 def replay_of(v, prop, clause, witness):
-    cfg = cfg_of(v['methods'])
+    cfg = cfg_for(v['methods'], v['eq'])
     m = base.Model(cfg, v['init'])
     src = REPLAY_HEADER.format(prop=prop, name='replay_%s.py' % prop.lower(), clause=clause, witness=witness)
     src += classes_src(v['methods'], v['eq'])
@@ -493,8 +683,12 @@ def replay_of(v, prop, clause, witness):
             src += base.render(ins) + '\n'
         if i == len(v['hist']) - 1:
             src += 'del LOG[:]\n'
+        if op[0] == 'arm':
+            src += 'ARM[0] = %d        # method m%d raises when it is called now\n' % (op[2], op[2])
         src += 'try:\n' + '\n'.join('    ' + ln for ln in base.render(new[-1]).split('\n'))
         src += '\nexcept Exception as e:\n    print("this assignment raised", repr(e))\n'
+        if op[0] == 'arm':
+            src += 'ARM[0] = None\n'
     if v['kind'] == 'leak':
         src += "n = watcher_count(n%d)\n" % v['leak_idx']
         src += "print('watchers left on the detached object n%d:', n)\n" % v['leak_idx']
@@ -541,7 +735,7 @@ def collect(B, prop, results):
         groups.setdefault(vclass(v), []).append(v)
     # a class that fails in the same way with identity equality is not a matter of value equality: one class
     for k in [k for k in groups if k[2] == 'val']:
-        kid = k[:2] + ('id',) + k[3:]
+        kid = k[:2] + ('id',) + k[3:]      # (the keys of family mro start with 'mro|': never merged)
         if kid in groups:
             groups[kid] += groups.pop(k)
     reports = []
